@@ -9,6 +9,11 @@
 //	  call fails": no panic, no hang, no PASS when every access fails.  The
 //	  runs of whole real suites are replayed through the model as well (real
 //	  dependency graphs, the outcomes the real checks produced as oracle).
+//	Part B, per check (alone.go): the total-failure clause judged against the
+//	  accesses the check ITSELF made -- in every run of the matrix, and with the
+//	  check run alone on the stored results and filled caches (FIT, TXT
+//	  registers, BIOS data, ACPI) of a healthy run; "hardware-dependent" is
+//	  decided by a data-perturbation experiment on the same accesses.
 package main
 
 import (
@@ -30,5 +35,5 @@ func main() {
 	c.Finish("random DAGs of 1..12 tests (random topological numbering, edge density 10/25/50%, duplicate edges, 8 check outcomes incl. rc=true with errors, " +
 		"time-varying outcomes in 1/4 of the graphs, stale initial results in 1/6, Required/Status flags) run through Test.Run in random / dependencies-first / dependants-first / subset / repeating orders and through RunTestsSilent; " +
 		"plus fixed graphs (chains of 12, diamond, TestTest_Run situations, flip witness); plus the real suites' dependency graphs replayed with the outcomes their checks produced under fault patterns; " +
-		"Part B: fault matrix over every test of the TXT and Boot Guard suites (oracle only). A case is non-trivial when at least two checks were evaluated; distinct = distinct Gallina literal")
+		"Part B: fault matrix over every test of the TXT and Boot Guard suites (oracle only), every run also judged against the accesses the check itself made; every test again alone after a healthy run of itself / of all tests (stored results and caches kept), every pattern over its own accesses, replayed through the model with the stored results as initial state. A case is non-trivial when at least two checks were evaluated; distinct = distinct Gallina literal")
 }
